@@ -510,7 +510,7 @@ fn run_matrix(
     hays: &[Vec<u8>],
     part: &mut usize,
 ) {
-    for pats in lists {
+    for (li, pats) in lists.iter().enumerate() {
         for &kind in &Kind::ALL {
             for &sk in &SK::ALL {
                 for &imp in &Imp::ALL {
@@ -523,7 +523,31 @@ fn run_matrix(
                         continue;
                     }
                     let cfg = Cfg::new(imp, kind).sk(sk);
-                    let s = match guard(|| cfg.build(pats)) {
+                    // The default configuration (standard semantics, unanchored
+                    // start kind) of every second list comes from the option-less
+                    // constructors `X::new(patterns)`, documented as "the default
+                    // configuration": the same outcomes are expected.
+                    let by_new = li % 2 == 0
+                        && kind == Kind::Standard
+                        && match imp {
+                            Imp::TopAuto | Imp::LowDfa => sk == SK::Unanchored,
+                            Imp::LowNnfa | Imp::LowCnfa => true,
+                            _ => false,
+                        };
+                    if by_new {
+                        rep.tally("searchers_from_option_less_constructors");
+                    }
+                    let s = match guard(|| -> Result<S, String> {
+                        if !by_new {
+                            return cfg.build(pats);
+                        }
+                        match imp {
+                            Imp::TopAuto => aho_corasick::AhoCorasick::new(pats).map(S::Top).map_err(|e| e.to_string()),
+                            Imp::LowNnfa => aho_corasick::nfa::noncontiguous::NFA::new(pats).map(S::N).map_err(|e| e.to_string()),
+                            Imp::LowCnfa => aho_corasick::nfa::contiguous::NFA::new(pats).map(S::C).map_err(|e| e.to_string()),
+                            _ => aho_corasick::dfa::DFA::new(pats).map(S::D).map_err(|e| e.to_string()),
+                        }
+                    }) {
                         Ok(Ok(s)) => s,
                         Ok(Err(e)) => {
                             rep.violation(
